@@ -20,11 +20,13 @@ CLAIMED = {
               "downloaded; size bound and enlargement rule; LRU prefix + minimality of eviction; requested files never "
               "evicted; hits refreshed; foreign files untouched; the completion order of the downloads (all that differs between "
               "sequential, parallel and any thread schedule) enters the returned paths and the raised error only through "
-              "the set of downloads that ran. The model is tied to the code by comparing, after every "
+              "the set of downloads that ran, and two admissible completion orders leave observationally equal caches "
+              "(index, limit, clock, content and size of every file; only the stamps of the files just downloaded differ) "
+              "and evict the same files. The model is tied to the code by comparing, after every "
               "operation of exhaustive short and long random histories, the full observable state of the real FileCache "
               "with the model's."),
         design="6/C18", technique="Lean 4 invariant proof by induction over operations + model/implementation correspondence",
-        note=PROOF_NOTE + " Not shown: real file-system timestamp granularity (logical clock installed by the harness), md5 collisions, HTTPS resource. Equality of the final *state* under two completion orders (up to the stamps of the downloaded files) is not a theorem: the schedule is an input of the model and both modes are compared with it on the real code."),
+        note=PROOF_NOTE + " Not shown: real file-system timestamp granularity (logical clock installed by the harness), md5 collisions, HTTPS resource. The schedule actually taken by the thread pool is an input of the model run (observed from the mock resource); state_order_independent shows that it does not matter."),
     "C19": dict(
         text=("Lean 4 theorems: at every crash point (any prefix of the elementary-action trace of any request, any fault "
               "outcome, any schedule) every file under a cache-pattern name is complete, post-processed and of the right "
